@@ -19,6 +19,7 @@ decidable well-formedness predicates, then instantiated on the concrete handler 
   service and of the settings are independent parameters (`credsAfter`);
 * `dmap_current_pin`, `dmap_paired_iff`, `dmap_stored_only_if_paired`: sequences of pin() /
   request / finish() on one DMAP handler: a request is judged against the most recent PIN only;
+  `dmap_bad_reply_no_effect`: a request whose answer cannot be encoded pairs nothing;
 * per handler: `wellFormed` by `decide`, and the instantiated statements.
 * DMAP signals failure only through `has_paired = False` (finish() returns normally):
   `handlers_fault_atomic_counterexample`, `handlers_fault_atomic_partial`, `dmap_fault_no_effect`.
@@ -361,6 +362,9 @@ theorem foldl_dstep_pin (ops : List DOp) : ∀ s : DSt,
     | finish =>
       simp only [List.foldl_cons, ih, lastPin]
       cases lastPin r <;> simp [dstep] <;> split <;> rfl
+    | badReply c =>
+      simp only [List.foldl_cons, ih, lastPin]
+      cases lastPin r <;> simp [dstep]
 
 /-- **C08/DMAP, no memory of earlier PINs.**  The PIN a request is judged against is the one
     given by the most recent `pin()`, whatever happened before (other PINs, other requests). -/
@@ -393,6 +397,7 @@ theorem foldl_dstep_paired (ops : List DOp) : ∀ s : DSt, s.paired = false →
         cases op with
         | pin p => simp [dstep, h]
         | finish => simp [dstep, h]
+        | badReply c => simp [dstep, h]
         | request c =>
           have : accepts s.pin c = false := by
             cases hx : accepts s.pin c with
@@ -433,12 +438,19 @@ theorem foldl_dstep_stored (ops : List DOp) : ∀ s : DSt, (s.stored = true → 
     cases op with
     | pin p => simpa [dstep] using h
     | request c => simp only [dstep]; split <;> simp_all
+    | badReply c => simpa [dstep] using h
     | finish => simp only [dstep]; split <;> simp_all
 
 /-- **C08/DMAP, credentials only after a matching request.** -/
 theorem dmap_stored_only_if_paired (ops : List DOp) :
     (drun ops).stored = true → (drun ops).paired = true :=
   foldl_dstep_stored ops DSt.init (by simp [DSt.init])
+
+/-- **C08/DMAP, an answer that cannot be built pairs nothing**, whatever the code was: the
+    device was told the pairing failed. -/
+theorem dmap_bad_reply_no_effect (s : DSt) (c : Option Nat) : dstep s (DOp.badReply c) = s := rfl
+
+example : (drun [.pin 5, .badReply (some 5), .finish]) = ⟨some 5, false, false⟩ := by decide
 
 /-- the code of a PIN that is no longer the configured one is refused (and so is any code of
     another PIN), even right after a request was judged under the old PIN -/
